@@ -1,7 +1,7 @@
 #!/usr/bin/env python3
 """
 Canonical-text tie for the parts of /repo that the Lean model mirrors by hand and that neither
-translator (rs2lean.py, rs2lean2.py) covers: qasm/int/macros.rs (Macro::new only; process / process_nested are translated), qasm/int/parse.rs (the meval context,
+translator (rs2lean.py, rs2lean2.py) covers: qasm/int/parse.rs (the meval context,
 eval_extended), the field lists of Int / Macro / Sym, Sym::new / init and its getters. (int/mod.rs itself is translated
 by rs2lean2.py; its calls into these files go to the model functions named here.)
 
@@ -28,7 +28,6 @@ DB = os.path.join(ROOT, "tools", "canon.json")
 # (lean name, file, kind, rust name): kind fn = `fn name` .. matching brace; struct = `struct name` .. brace;
 # block = a `name! {` .. brace macro invocation
 ITEMS = [
-    ("macro_new", "qasm/int/macros.rs", "fn", "new"),
     ("parse_context", "qasm/int/parse.rs", "block", "thread_local"),
     ("parse_eval_extended", "qasm/int/parse.rs", "fn", "eval_extended"),
     ("sym_init", "qasm/sym.rs", "fn", "init"),
